@@ -364,3 +364,47 @@ Example replay_hypotheses_satisfiable :
   option_map (fun a => h_tol (a_cfg a)) (p_active (run sha256 hmac s1' h)) = Some tol /\
   admit_of (run sha256 hmac s1' h) (1000 * sec + tol) r = None.
 Proof. intros sha256 hmac. vm_compute. repeat split; intros; discriminate. Qed.
+
+(** * The executable predicate [P_C09] says what it should (reflection): in a trace of acceptances,
+    whenever a nonce is accepted again the earlier request's window - under the tolerance in force at
+    the later acceptance - was over at the later clock reading. *)
+Lemma no_later_dup_spec a later :
+  no_later_dup a later = true <->
+  forall b, In b later -> ac_nonce a = ac_nonce b -> ac_signed a + ac_tol b < ac_now b.
+Proof.
+  induction later as [|x tl IH]; simpl.
+  - split; [intros _ b [] | reflexivity].
+  - rewrite andb_true_iff, IH, orb_true_iff, negb_true_iff, N.eqb_neq, Z.ltb_lt. split.
+    + intros [[H|H] Ht] b [E|Hin] En; subst; auto; congruence.
+    + intros H. split.
+      * destruct (N.eq_dec (ac_nonce a) (ac_nonce x)) as [E|NE]; [right; apply H; auto | left; exact NE].
+      * intros b Hin. apply H. right. exact Hin.
+Qed.
+
+Theorem P_C09_spec tr :
+  P_C09 tr = true <->
+  forall pre a mid b post, tr = pre ++ a :: mid ++ b :: post ->
+    ac_nonce a = ac_nonce b -> ac_signed a + ac_tol b < ac_now b.
+Proof.
+  induction tr as [|x tl IH]; simpl.
+  - split; [|reflexivity]. intros _ pre a mid b post E. destruct pre; discriminate.
+  - rewrite andb_true_iff, no_later_dup_spec, IH. split.
+    + intros [H1 H2] pre a mid b post E En. destruct pre as [|p pre]; simpl in E; inversion E; subst.
+      * apply H1; [apply in_or_app; right; left; reflexivity | exact En].
+      * eapply H2; eauto.
+    + intros H. split.
+      * intros b Hin En. apply in_split in Hin. destruct Hin as (mid & post & ->).
+        apply (H [] x mid b post); auto.
+      * intros pre a mid b post E En. apply (H (x :: pre) a mid b post); [simpl; congruence | exact En].
+Qed.
+
+Lemma window_closed_between_admitted sha256 hmac s1 now1 r1 n t1 h now2 r2 t2 :
+  admit_of s1 now1 r1 = Some (n, t1) ->
+  let s1' := fst (step sha256 hmac s1 (EReq now1 r1)) in
+  admit_of (run sha256 hmac s1' h) now2 r2 = Some (n, t2) ->
+  exists k tolk, In (k, tolk) (checkpoints sha256 hmac s1' (h ++ [EReq now2 r2])) /\ t1 + tolk < k.
+Proof.
+  intros A1 s1' A2.
+  exact (window_closed_between sha256 hmac s1' n t1 h now2 r2 t2
+           (admitted_remembered sha256 hmac s1 now1 r1 n t1 A1) A2).
+Qed.
